@@ -108,7 +108,7 @@ def numberValue (c : Cfg) (v : PyVal) : R :=
 
 -- src: Integer._validate_value
 def integerValue (c : Cfg) (v : PyVal) : R :=
-  if v.isCallable then ok
+  if v.isCallable && !v.isGenFn then ok
   else if c.allowNone && v.isNone then ok
   else if !v.isInt then valueErr else ok
 
@@ -193,16 +193,16 @@ def dateRangeValue (c : Cfg) (v : PyVal) : R :=
         | some (s, e) => require (PyVal.ge? e s)
     | _ => valueErr
 
--- src: CalendarDateRange._validate_value   (no tuple test: any iterable gets through)
+-- src: CalendarDateRange._validate_value   (plain dates only: a datetime item is refused)
 def calendarDateRangeValue (c : Cfg) (v : PyVal) : R :=
   if c.allowNone && v.isNone then ok
-  else match v.iter? with
-    | none => typeErr                            -- `for n in val` on a non-iterable
-    | some xs =>
-      if !xs.all PyVal.isDt then valueErr       -- isinstance(n, dt.date): datetimes pass
+  else match v with
+    | .tuple xs =>
+      if !xs.all (fun n => n.isDt && !n.isDatetime) then valueErr
       else match unpack2 xs with
         | none => valueErr
         | some (s, e) => require (PyVal.ge? e s)
+    | _ => valueErr
 
 /-- which bound values a Range flavour accepts (`_validate_bound_type`) -/
 def boundTypeOk (t : PType) (b : PyVal) : Bool :=
@@ -354,13 +354,18 @@ def selectorValue (c : Cfg) (v : PyVal) : R :=
 def selectorValidate (c : Cfg) (v : PyVal) : R :=
   if !c.checkOnSet then ok else selectorValue c v
 
+/-- one item of ListSelector._validate_value: a `None` item must be one of the objects
+(`allow_None` is about the whole value), then the Selector test -/
+def listItemRejects (c : Cfg) (o : PyVal) : Bool :=
+  (c.checkOnSet && o.isNone && !(PyVal.pyIn o c.objects)) || selectorRejects c o
+
 -- src: ListSelector._validate / _validate_type / _validate_value
 def listSelectorValidate (c : Cfg) (v : PyVal) : R :=
   if v.isNone && c.allowNone then ok
   else match v with
     | .list xs =>
       if c.checkOnSet then
-        (if xs.all (fun o => !selectorRejects c o) then ok else valueErr)
+        (if xs.all (fun o => !listItemRejects c o) then ok else valueErr)
       else ok
     | _ => valueErr
 
@@ -385,11 +390,8 @@ def hexBody (cs : List Char) : Bool :=
     | _ => cs
   (body.length == 6 || body.length == 3) && body.all isHexDigit
 
-/-- `re.match('^#?(([0-9a-fA-F]{2}){3}|([0-9a-fA-F]){3})$', val)`: `$` also matches
-just before one trailing newline -/
-def hexMatch (s : String) : Bool :=
-  let cs := s.toList
-  hexBody cs || (cs.getLast? == some '\n' && hexBody cs.dropLast)
+/-- `re.match(r'^#?(([0-9a-fA-F]{2}){3}|([0-9a-fA-F]){3})\Z', val)` -/
+def hexMatch (s : String) : Bool := hexBody s.toList
 
 -- src: Color._named_colors   (CSS3 extended colour keywords)
 def namedColors : List String := [
@@ -626,7 +628,7 @@ def ctorValidate (c : Cfg) (x : Ctx) (default : PyVal) : R :=
   | .listSelector =>
     if default.isNone then ok
     else match default with
-      | .list xs => if xs.all (fun o => !selectorRejects c o) then ok else valueErr
+      | .list xs => if xs.all (fun o => !listItemRejects c o) then ok else valueErr
       | _ => valueErr
   | _ => validate c x default
 
